@@ -6,9 +6,14 @@
    for the raw steps and for the RETURNED dendrogram with its labels, for every
    threshold; (4) the same min-over-cross-pairs characterisation for
    primitive (C02_single_run).
-   Not theorems: that the Prim weights are the weight multiset of a minimum
-   spanning tree (the classical cut property; (3) is the characterisation used
-   instead), and (2)-(3) for nnchain/generic with Method::Single. *)
+   (5) the second sentence of the property: through each of the five entry
+   points the returned heights are, up to order and bit for bit, the edge
+   weights of a minimum spanning tree of the complete graph on the
+   observations (end of this file): a spanning tree with those weights exists,
+   and at every threshold it has at least as many edges of weight <= t as any
+   other spanning tree - which over an ordered field is minimal total weight
+   (C04_dominated_sum, C04_min_total_weight_Q). Carrier-generic (strict weak
+   order) and instantiated on binary64 / binary32 for every finite input. *)
 Require Import KV.Model.Prelude KV.Model.Condensed KV.Model.Methods KV.Model.State KV.Model.Dendrogram
   KV.Model.Mst KV.Model.Linkage KV.Model.History KV.Proofs.OrderOnly KV.Proofs.ActiveRefine KV.Proofs.SortProofs
   KV.Proofs.RelabelWF KV.Proofs.PrimThreshold KV.Proofs.MstPrim KV.Proofs.MstCuts.
@@ -254,3 +259,145 @@ Theorem C04_f32_single_cuts_other_entry_points : forall (p : profile) (a : algo)
          <-> conn (@Bltb 24 128) (dcell (kops_of F32 Single) M0) (seq 0 (m_obs M0)) t x y).
 Proof. exact single_cuts_f32. Qed.
 Print Assumptions C04_f32_single_cuts_other_entry_points.
+
+(* ---- the heights are the edge weights of a minimum spanning tree ---- *)
+Require Import KV.Proofs.SpanningTrees KV.Proofs.MstWeights KV.Proofs.MstWeightsRun KV.Proofs.DominatedSum KV.Proofs.MstWeightsInstances.
+From Coq Require Import QArith.
+
+(* readings, pinned: a spanning tree of the complete graph on the vertex list V is a list of
+   |V| - 1 pairs of vertices whose symmetric-transitive closure connects all of V *)
+Theorem C04_spanning_reading : forall (V : list nat) (E : list (nat * nat)),
+  spanning V E <->
+  (length E + 1 = length V
+   /\ (forall e, In e E -> In (fst e) V /\ In (snd e) V)
+   /\ forall x y, In x V -> In y V -> clos_refl_sym_trans nat (fun a b => In (a, b) E \/ In (b, a) E) x y)%nat.
+Proof. intros V E. reflexivity. Qed.
+Print Assumptions C04_spanning_reading.
+
+(* hs is, up to order, the list of weights d0 a b of the edges of a spanning tree E, and no
+   spanning tree has more edges of weight <= t than hs has entries <= t, for any t *)
+Theorem C04_mst_weights_reading : forall (T : Type) (ltb : T -> T -> bool) (d0 : nat -> nat -> T) (n : nat) (hs : list T),
+  mst_weights ltb d0 n hs <->
+  exists E, spanning (seq 0 n) E
+    /\ Permutation hs (map (fun e => d0 (fst e) (snd e)) E)
+    /\ forall E', spanning (seq 0 n) E' -> forall t : T,
+         (length (filter (fun v => negb (ltb t v)) (map (fun e => d0 (fst e) (snd e)) E'))
+          <= length (filter (fun v => negb (ltb t v)) hs))%nat.
+Proof. intros. reflexivity. Qed.
+Print Assumptions C04_mst_weights_reading.
+
+(* Kruskal's bound (pure graph theory): inside any spanning tree, the edges selected by a
+   predicate number at most |P| for every edge list P whose connectivity covers theirs *)
+Theorem C04_kruskal_bound : forall (V : list nat) (E' P : list (nat * nat)) (f : nat * nat -> bool),
+  NoDup V -> spanning V E' -> (forall e, In e P -> In (fst e) V /\ In (snd e) V) ->
+  (forall a b, In (a, b) (filter f E') -> econn P a b) ->
+  (length (filter f E') <= length P)%nat.
+Proof. exact kruskal_bound. Qed.
+Print Assumptions C04_kruskal_bound.
+
+(* why the threshold-count form is minimality: over Q, same length and never more entries
+   <= t means a sum that is not larger *)
+Theorem C04_dominated_sum : forall (n : nat) (A B : list Q), length A = n -> length B = n ->
+  (forall t, In t B -> (length (filter (fun v => Qle_bool v t) B) <= length (filter (fun v => Qle_bool v t) A))%nat) ->
+  (fold_right Qplus 0 A <= fold_right Qplus 0 B)%Q.
+Proof. exact dominated_sum. Qed.
+Print Assumptions C04_dominated_sum.
+
+(* mst_with (= linkage with Method::Single), any carrier with a strict weak order *)
+Theorem C04_mst_heights_are_mst_weights : forall (T : Type) (K : kops T) (p : profile),
+  (forall a, k_ltb K a a = false) ->
+  (forall a b c, k_ltb K a b = true -> k_ltb K b c = true -> k_ltb K a c = true) ->
+  (forall a b c, k_ltb K a b = false -> k_ltb K b c = false -> k_ltb K a c = false) ->
+  forall s d m n s' d' m' M0,
+  mst_with K p s d m n = Ok (s', d', m') ->
+  prologue p m n = Ok M0 -> (1 <= m_obs M0)%nat ->
+  (forall x y, x <> y -> (x < m_obs M0)%nat -> (y < m_obs M0)%nat -> k_ltb K (dcell K M0 x y) (k_inf K) = true) ->
+  mst_weights (k_ltb K) (dcell K M0) (m_obs M0) (heights d').
+Proof. exact mst_weights_mst. Qed.
+Print Assumptions C04_mst_heights_are_mst_weights.
+
+(* primitive, nnchain, generic with Method::Single *)
+Theorem C04_primitive_heights_are_mst_weights : forall (T : Type) (F : fops T) (p : profile),
+  (forall a, f_ltb F a a = false) ->
+  (forall a b c, f_ltb F a b = true -> f_ltb F b c = true -> f_ltb F a c = true) ->
+  (forall a b c, f_ltb F a b = false -> f_ltb F b c = false -> f_ltb F a c = false) ->
+  forall s d m n s' d' m' M0,
+  primitive_with (kops_of F Single) p Single s d m n = Ok (s', d', m') -> prologue p m n = Ok M0 -> (1 <= m_obs M0)%nat ->
+  mst_weights (f_ltb F) (cell_or (f_inf F) M0) (m_obs M0) (heights d').
+Proof. exact primitive_weights_mst. Qed.
+Print Assumptions C04_primitive_heights_are_mst_weights.
+
+Theorem C04_nnchain_heights_are_mst_weights : forall (T : Type) (F : fops T) (p : profile),
+  (forall a, f_ltb F a a = false) ->
+  (forall a b c, f_ltb F a b = true -> f_ltb F b c = true -> f_ltb F a c = true) ->
+  (forall a b c, f_ltb F a b = false -> f_ltb F b c = false -> f_ltb F a c = false) ->
+  forall s d m n s' d' m' M0,
+  nnchain_with (kops_of F Single) p Single s d m n = Ok (s', d', m') -> prologue p m n = Ok M0 -> (1 <= m_obs M0)%nat ->
+  mst_weights (f_ltb F) (cell_or (f_inf F) M0) (m_obs M0) (heights d').
+Proof. exact nnchain_weights_mst. Qed.
+Print Assumptions C04_nnchain_heights_are_mst_weights.
+
+Theorem C04_generic_heights_are_mst_weights : forall (T : Type) (F : fops T) (p : profile),
+  (forall a, f_ltb F a a = false) ->
+  (forall a b c, f_ltb F a b = true -> f_ltb F b c = true -> f_ltb F a c = true) ->
+  (forall a b c, f_ltb F a b = false -> f_ltb F b c = false -> f_ltb F a c = false) ->
+  (forall a, f_eqb F a a = true) ->
+  (forall u v, f_eqb F u v = true -> f_ltb F v u = false) ->
+  forall s d m n s' d' m' M0,
+  Forall (fun v => f_ltb F v (f_inf F) = true) m ->
+  generic_with (kops_of F Single) p Single s d m n = Ok (s', d', m') -> prologue p m n = Ok M0 -> (1 <= m_obs M0)%nat ->
+  mst_weights (f_ltb F) (cell_or (f_inf F) M0) (m_obs M0) (heights d').
+Proof. exact generic_weights_mst. Qed.
+Print Assumptions C04_generic_heights_are_mst_weights.
+
+(* exact rational arithmetic: minimal total weight *)
+Theorem C04_min_total_weight_Q : forall (p : profile) (rt : Q -> Q) s d (m : list Q) n s' d' m' M0,
+  primitive_with (kops_of (QFr rt) Single) p Single s d m n = Ok (s', d', m')
+  \/ nnchain_with (kops_of (QFr rt) Single) p Single s d m n = Ok (s', d', m') ->
+  prologue p m n = Ok M0 -> (1 <= m_obs M0)%nat ->
+  exists E, spanning (seq 0 (m_obs M0)) E
+    /\ Permutation (heights d') (map (fun e => cell_or 0%Q M0 (fst e) (snd e)) E)
+    /\ forall E', spanning (seq 0 (m_obs M0)) E' ->
+         (fold_right Qplus 0 (heights d') <= fold_right Qplus 0 (map (fun e => cell_or 0%Q M0 (fst e) (snd e)) E'))%Q.
+Proof.
+  intros p rt s d m n s' d' m' M0 [H|H] HM0 Hn.
+  - exact (@primitive_single_min_total_Q p rt s d m n s' d' m' M0 H HM0 Hn).
+  - exact (@nnchain_single_min_total_Q p rt s d m n s' d' m' M0 H HM0 Hn).
+Qed.
+Print Assumptions C04_min_total_weight_Q.
+
+(* the two float carriers: every finite input, all five entry points *)
+Theorem C04_f64_heights_are_mst_weights : forall (p : profile) (a : algo) s d
+  (m : list PrimFloat.float) (n : N) s' d' m' M0,
+  run_with F64 p a Single s d m n = Ok (s', d', m') ->
+  prologue p m n = Ok M0 -> (1 <= m_obs M0)%nat ->
+  Forall (fun v => PrimFloat.ltb v PrimFloat.infinity = true) m ->
+  mst_weights PrimFloat.ltb (dcell (kops_of F64 Single) M0) (m_obs M0) (heights d').
+Proof. exact mst_weights_f64. Qed.
+Print Assumptions C04_f64_heights_are_mst_weights.
+
+Theorem C04_f32_heights_are_mst_weights : forall (p : profile) (a : algo) s d
+  (m : list f32) (n : N) s' d' m' M0,
+  run_with F32 p a Single s d m n = Ok (s', d', m') ->
+  prologue p m n = Ok M0 -> (1 <= m_obs M0)%nat ->
+  Forall (fun v => Bltb v (f_inf F32) = true) m ->
+  mst_weights (@Bltb 24 128) (dcell (kops_of F32 Single) M0) (m_obs M0) (heights d').
+Proof. exact mst_weights_f32. Qed.
+Print Assumptions C04_f32_heights_are_mst_weights.
+
+(* non-vacuity: the path 0 - 1 - 2 is a spanning tree on three vertices; a star is another *)
+Example C04_spanning_exists : spanning (seq 0 3) [(0, 1); (1, 2)]%nat /\ spanning (seq 0 3) [(0, 1); (0, 2)]%nat.
+Proof.
+  split; (split; [reflexivity|]; split;
+    [intros e [<-|[<-|[]]]; cbn; auto 6|]).
+  - assert (H01 : econn [(0, 1); (1, 2)]%nat 0%nat 1%nat) by apply econn_head.
+    assert (H12 : econn [(0, 1); (1, 2)]%nat 1%nat 2%nat) by (apply econn_tail; apply econn_head).
+    assert (H0 : forall y, In y (seq 0 3) -> econn [(0, 1); (1, 2)]%nat 0%nat y).
+    { intros y [<-|[<-|[<-|[]]]]; [apply econn_refl|exact H01|eapply econn_trans; eassumption]. }
+    intros x y Hx Hy. eapply econn_trans; [apply econn_sym; exact (H0 x Hx)|exact (H0 y Hy)].
+  - assert (H01 : econn [(0, 1); (0, 2)]%nat 0%nat 1%nat) by apply econn_head.
+    assert (H02 : econn [(0, 1); (0, 2)]%nat 0%nat 2%nat) by (apply econn_tail; apply econn_head).
+    assert (H0 : forall y, In y (seq 0 3) -> econn [(0, 1); (0, 2)]%nat 0%nat y).
+    { intros y [<-|[<-|[<-|[]]]]; [apply econn_refl|exact H01|exact H02]. }
+    intros x y Hx Hy. eapply econn_trans; [apply econn_sym; exact (H0 x Hx)|exact (H0 y Hy)].
+Qed.
